@@ -31,6 +31,12 @@ from a cache, by the ioctl, queries disabled, no tty) it returns normally.  When
 exception reaches the caller the observation is [-1] and the body counters are put back
 (they count COMPLETED computations).  The fault is disarmed after the op.
 
+RESIZE DURING A MEMOISED BODY: the op TSR c r x y calls the `terminal_size_cached` probe
+with a resize armed in its body: the body (if it runs at all, i.e. the entry does not
+serve the call) reads the scripted terminal's pixel size, THEN sets the scripted terminal
+to (c, r, x, y), then returns.  The twin's fresh value for this op is the one for the
+terminal the call was made at.  The resize is disarmed after the op.
+
 Modes (stdin JSON):  list of cases -> list of results;  a case is either a history
 ({"env", "t0", "ops"}), a thread race ({"threads": n, "fn": ...}) or a request for a
 fresh computation in this (new) interpreter ({"fresh": ...}).
@@ -82,6 +88,8 @@ class Term:
         self.pres = env.get("pres", 0)
         self.fault = None  # armed fault: "kbd" | "oserr" | "termios"
         self.fired = 0
+        self.resize_in_body = None  # armed resize: the size the terminal gets while the probe's body runs
+        self.resized_in_body = 0
 
     def fire(self, where):
         """Raise the armed fault if `where` is its firing point (one shot)."""
@@ -306,8 +314,8 @@ def fresh(kind, term_args, swap, qen, key=0):
         return enc_cols(COL_CALLS[key](T.utils.get_fg_bg_colors))
     if kind == "NV":
         return enc_nv(T.utils.get_terminal_name_version())
-    if kind == "TS":
-        return [t.xpx, t.ypx]
+    if kind == "TS":  # a first call of a freshly decorated probe
+        return list(T.utils.terminal_size_cached(lambda: (t.xpx, t.ypx))())
     raise AssertionError(kind)
 
 
@@ -347,7 +355,12 @@ def run_history(case):
 
     def ts_body():
         counters["ts"] += 1
-        return (term.xpx, term.ypx)
+        value = (term.xpx, term.ypx)  # the body looks at the terminal at its start ...
+        if term.resize_in_body is not None:  # ... the window is resized while it is still running ...
+            term.cols, term.rows, term.xpx, term.ypx = term.resize_in_body
+            term.resize_in_body = None
+            term.resized_in_body += 1
+        return value  # ... and it returns what it computed
 
     ts_probe = U.terminal_size_cached(ts_body)
     TextImage = text_image()
@@ -394,6 +407,13 @@ def run_history(case):
             obs = [int(bool(TextImage._is_on_kitty()))]
         elif k == "TS":
             obs = list(ts_probe())
+        elif k == "TSR":
+            # the probe, with a resize landing while its body runs
+            term.resize_in_body = [int(x) for x in op[1:5]]
+            try:
+                obs = list(ts_probe())
+            finally:
+                term.resize_in_body = None
         elif k in ABORT_OPS:
             # the getter with a fault armed inside query_terminal
             snap = dict(counters)
@@ -418,8 +438,8 @@ def run_history(case):
                 term.fault = None
         else:
             raise AssertionError(op)
-        if k in ("CS", "CR", "CO", "NV", "TS", "K") or k in ABORT_OPS:
-            kind = "NV" if k == "K" else ABORT_OPS.get(k, k)
+        if k in ("CS", "CR", "CO", "NV", "TS", "TSR", "K") or k in ABORT_OPS:
+            kind = "NV" if k == "K" else "TS" if k == "TSR" else ABORT_OPS.get(k, k)
             key = op[1] if k in ("CO", "COA") else 0
             fr_cur = fresh(kind, targs, swap, qen, key)
             # (with queries enabled now this is the very same computation: not repeated)
